@@ -913,6 +913,7 @@ class Extract:
     exit_: list = field(default_factory=list)      # proof text appended at the end of a ()-returning body
     indexcalls: list = field(default_factory=list)  # R7: `recv[expr]` (read position) -> `recv.method(expr)`
     locals_: list = field(default_factory=list)    # (alias, "stmt pattern with $", nth): the alias used in hints names the binder at `$`
+    folds: list = field(default_factory=list)   # (from anchor, to anchor, replacement text): statements FROM..TO (already under contract as a block of their own) become one call
     methodrenames: list = field(default_factory=list)  # R7: every `.old(` method call -> `.new(` (a wrapper trait method with the std contract)
     fallback: list = field(default_factory=list)   # text emitted instead when the item no longer exists
     derive_proof: list = field(default_factory=list)  # proof body of the `derive` lemma
@@ -1341,6 +1342,10 @@ def parse_template(text):
         if mm:
             ins = [mm.group(1), _unesc(mm.group(2)), int(mm.group(3) or 1), mm.group(4)]
             cur.inserts.append(ins); last = ("insert", ins); i += 1; continue
+        mfold = re.match(r'^fold\s+"((?:[^"\\]|\\.)*)"\s*\.\.\s*"((?:[^"\\]|\\.)*)"\s*=>\s*"((?:[^"\\]|\\.)*)"\s*$', body)
+        if mfold:
+            cur.folds.append((_unesc(mfold.group(1)), _unesc(mfold.group(2)), _unesc(mfold.group(3))))
+            last = None; i += 1; continue
         mopt = re.match(r'^replace\?\s+"((?:[^"\\]|\\.)*)"\s*=>\s*"((?:[^"\\]|\\.)*)"\s*$', body)
         if mopt:
             # `replace?`: a rewrite for an ALTERNATIVE shape of the code; silently skipped when the text is absent
@@ -2111,6 +2116,20 @@ def _build_fn(sf: SourceFile, item: Item, impl, ex: Extract, props, rep, unit, a
         sig_toks = lex(a["wrap"])
         qual = qual + "#" + (a.get("blockname") or "block")
 
+    # `fold "FROM" .. "TO" => "CALL"`: the statements from the one holding FROM to the one holding TO are code that is under
+    # contract as an inline block of its own (same anchors); here they are replaced by a call of that block's wrapper, so
+    # that the code AROUND them (the branch that chooses between them) can be put under contract without proving them twice
+    for (ffrom, fto, ftext) in ex.folds:
+        h1 = _find_seq_any(body_toks, pat_tokens(ffrom))
+        if len(h1) != 1:
+            raise AnchorLost(f"{qual}: fold from {ffrom!r}: {len(h1)} matches")
+        fs_ = _stmt_start_before(body_toks, h1[0][0], 1)
+        h2 = [h for h in _find_seq_any(body_toks, pat_tokens(fto)) if h[0] >= fs_]
+        if not h2:
+            raise AnchorLost(f"{qual}: fold to {fto!r}: no match after the start")
+        fe_ = _stmt_end_from_start(body_toks, _stmt_start_before(body_toks, h2[0][0], 1))
+        body_toks[fs_:fe_] = lex(ftext) + [T(WS, "\n")]
+        rep.append(("R0", f"fold: statements {ffrom[:40]!r} .. {fto[:40]!r} (under contract as a block of their own) replaced by `{ftext[:60]}`"))
     sig_toks = rw_strip_comments(sig_toks, rep)
     sig_toks = rw_vis(sig_toks, rep)
     body_toks = rw_strip_comments(body_toks, rep)
